@@ -64,7 +64,11 @@ def end_to_end():
         n3lo_cf_variation=0, IC=1, QED=0, RenScaleVar=True, FactScaleVar=True,
     )
     out = {}
-    for process, proj in (("NC", "electron"), ("CC", "neutrino")):
+    # massless scheme (light kernels, TMC, scale variations) and a massive one (the heavy-quark and
+    # heavy-quark-initiated channels hand their own argument arrays and Python closures to the compiled
+    # kernels and integrands)
+    for process, proj, fns in (("NC", "electron", "ZM-VFNS"), ("CC", "neutrino", "ZM-VFNS"), ("CC", "antineutrino", "FFNS"), ("NC", "positron", "FFNS")):
+        theory = dict(theory, FNS=fns, TMC=1 if fns == "ZM-VFNS" else 0)
         obs = dict(
             interpolation_xgrid=[1e-3, 1e-2, 0.1, 0.3, 0.5, 0.7, 0.9, 1.0], interpolation_polynomial_degree=2, interpolation_is_log=True,
             prDIS=process, ProjectileDIS=proj, PolarizationDIS=0.0, PropagatorCorrection=0.0, TargetDIS="isoscalar", NCPositivityCharge=None,
@@ -74,7 +78,7 @@ def end_to_end():
         for name in obs["observables"]:
             for i, r in enumerate(res[name]):
                 for o, (v, e) in sorted(r.orders.items()):
-                    out[f"{process}/{name}[{i}]{o}"] = [float(x) for x in np.asarray(v).ravel()]
+                    out[f"{process}/{fns}/{name}[{i}]{o}"] = [float(x) for x in np.asarray(v).ravel()]
     return out
 
 
